@@ -13,6 +13,15 @@ def main():
     seed = a.seed if a.seed is not None else int(os.environ.get("VERIF_SEED", "1") or "1")
     mod = importlib.import_module("props." + a.prop.lower())
     ctx = vlib.Ctx(a.prop, a.tier, seed)
+    # whole-library halves: the scheduler-level machine (C01, C02, C04, C12) and the spin lock / sleep
+    # queue (every protocol model that treats a spin-locked region as one step and the queue as a list)
+    ATTACH = {"C01": ["machine"], "C02": ["machine"], "C04": ["machine", "spin"], "C12": ["machine"],
+              "C05": ["spin"], "C07": ["spin"], "C09": ["spin"], "C16": ["spin"]}
+    if not a.replay:
+        for m in ATTACH.get(a.prop, []):
+            am = importlib.import_module("props." + m)
+            n = (30 if m == "machine" else 40) * (10 if a.tier == "thorough" else 1)
+            ctx.attachments = getattr(ctx, "attachments", []) + [lambda c, am=am, n=n: am.attach(c, n)]
     try:
         if a.replay:
             return mod.replay(ctx, a.replay)
